@@ -460,7 +460,8 @@ namespace detail
             if constexpr (V::keeps_text) v.text += " <error>";
             ++n;
         }
-        void add(ctpg::term_value<ctpg::no_type>&&) { error_leaf(); }
+        // a term declared with ftors::create<no_type>{} (the readme's idiom for terms without a value): source point only
+        void add(ctpg::term_value<ctpg::no_type>&& t) { leaf(std::string_view(), t.get_line(), t.get_column()); }
         void add(ctpg::no_type&&) { error_leaf(); }   // value type of the error symbol
         V finish(int ctx)
         {
